@@ -139,6 +139,12 @@ impl ParseAttribute for InputField {
 
             self.attr_name = FromMeta::from_meta(mi)?;
 
+            // The `r#` of a raw identifier is spelling, not part of the name: the generated
+            // matcher drops it from what the user wrote, so drop it from the declared name too.
+            if let Some(bare) = self.attr_name.as_deref().and_then(|n| n.strip_prefix("r#")) {
+                self.attr_name = Some(bare.to_string());
+            }
+
             if self.flatten.is_present() {
                 return Err(
                     Error::custom("`flatten` and `rename` cannot be used together").with_span(mi),
